@@ -195,7 +195,7 @@ class Transform(data_input.DataInputAbstract, Numbered_MCNP_Object):
         # test if the rotation matrix has info, or was specified or main_to_aux is needed
         needs_rotation = (
             np.any(self.rotation_matrix)
-            or len(self.data) >= 8
+            or len(list(self.data)) >= 8
             or not self.is_main_to_aux
         )
         if needs_rotation:
@@ -210,8 +210,9 @@ class Transform(data_input.DataInputAbstract, Numbered_MCNP_Object):
                     self.data.append(node)
                     new_values.append(node)
             # if main to aux specified or is needed
-            if len(self.data) == 13 or not self.is_main_to_aux:
-                if len(self.data) == 13:
+            # entries after shortcut expansion, not syntax nodes
+            if len(list(self.data)) == 13 or not self.is_main_to_aux:
+                if len(list(self.data)) == 13:
                     node = self.data[-1]
                 else:
                     node = self._generate_default_node(int, 1)
